@@ -915,6 +915,86 @@ impl QueriesW {
     }
 }
 
+// ---------------------------------------------------------------------------------------------------------------------
+// ProverChannel::{commit_trace, commit_constraints, send_ood_trace_states, send_ood_constraint_evaluations}
+// (prover/src/channel.rs, C04): every message the prover sends is (1) stored in the proof and (2) absorbed by the public coin, once,
+// as exactly the stored value - a commitment root as itself, the out-of-domain frames as hash_elements of the stored values.
+// The coin is a ghost log of the digests it was reseeded with (its state transition is proved in unit coinv, C19); the commitment
+// section is a byte writer (Commitments::add appends the digest's encoding: named contract).
+pub uninterp spec fn enc_dg(d: Dg) -> Seq<u8>;
+pub struct CoinLog { pub ops: Ghost<Seq<Dg>> }
+impl CoinLog {
+    #[verifier::external_body]
+    pub fn reseed(&mut self, d: Dg) ensures final(self).ops@ == old(self).ops@.push(d) { unimplemented!() }
+}
+pub struct CommitmentsW { pub bytes: Ghost<Seq<u8>> }
+impl CommitmentsW {
+    #[verifier::external_body]
+    pub fn add(&mut self, d: &Dg) ensures final(self).bytes@ == old(self).bytes@ + enc_dg(*d) { unimplemented!() }
+}
+impl HH {
+    #[verifier::external_body]
+    pub fn hash_elements_slice(v: &[T]) -> (r: Dg) ensures r == hash_elements_of(v@) { unimplemented!() }
+}
+pub struct ProverChannel { pub commitments: CommitmentsW, pub ood_frame: OodFrameW, pub public_coin: CoinLog }
+impl ProverChannel {
+    //@@ source prover/src/channel.rs
+    //@@ extract anchor="pub fn commit_trace(&mut self, trace_root: H::Digest)"
+    //@@ rewrite "self.commitments.add::<H>(" => "self.commitments.add("
+    pub fn commit_trace(&mut self, trace_root: Dg)
+        ensures
+            final(self).commitments.bytes@ == old(self).commitments.bytes@ + enc_dg(trace_root),
+            final(self).public_coin.ops@ == old(self).public_coin.ops@.push(trace_root),
+            final(self).ood_frame == old(self).ood_frame,
+    {
+        /*@@body*/
+    }
+
+    //@@ extract anchor="pub fn commit_constraints(&mut self, constraint_root: H::Digest)"
+    //@@ rewrite "self.commitments.add::<H>(" => "self.commitments.add("
+    pub fn commit_constraints(&mut self, constraint_root: Dg)
+        ensures
+            final(self).commitments.bytes@ == old(self).commitments.bytes@ + enc_dg(constraint_root),
+            final(self).public_coin.ops@ == old(self).public_coin.ops@.push(constraint_root),
+            final(self).ood_frame == old(self).ood_frame,
+    {
+        /*@@body*/
+    }
+
+    //@@ extract anchor="pub fn send_ood_trace_states(&mut self, trace_ood_frame: &TraceOodFrame<E>)"
+    //@@ rewrite "self.ood_frame.set_trace_states::<E, H>(" => "self.ood_frame.set_trace_states("
+    pub fn send_ood_trace_states(&mut self, trace_ood_frame: &TraceOodFrame)
+        requires
+            old(self).ood_frame.trace_states.v@.len() == 0, old(self).ood_frame.lagrange_kernel_trace_states.v@.len() == 0,
+            trace_ood_frame.current_row.len() == trace_ood_frame.next_row.len(), trace_ood_frame.current_row.len() <= usize::MAX / 2,
+            lag_values(*trace_ood_frame).len() < 255,
+        ensures
+            final(self).ood_frame.trace_states.v@ =~= seq![2u8] + enc_many(interleave(trace_ood_frame.current_row@, trace_ood_frame.next_row@)),
+            final(self).ood_frame.lagrange_kernel_trace_states.v@ =~= seq![lag_values(*trace_ood_frame).len() as u8] + enc_many(lag_values(*trace_ood_frame)),
+            final(self).ood_frame.evaluations == old(self).ood_frame.evaluations,
+            final(self).commitments == old(self).commitments,
+            // the coin absorbs, once, the hash of exactly the stored values
+            final(self).public_coin.ops@ == old(self).public_coin.ops@.push(
+                hash_elements_of(interleave(trace_ood_frame.current_row@, trace_ood_frame.next_row@) + lag_values(*trace_ood_frame))),
+    {
+        /*@@body*/
+    }
+
+    //@@ extract anchor="pub fn send_ood_constraint_evaluations(&mut self, evaluations: &[E])"
+    //@@ rewrite "H::hash_elements(evaluations)" => "HH::hash_elements_slice(evaluations)"
+    pub fn send_ood_constraint_evaluations(&mut self, evaluations: &[T])
+        requires old(self).ood_frame.evaluations.v@.len() == 0, evaluations@.len() > 0
+        ensures
+            final(self).ood_frame.evaluations.v@ =~= enc_many(evaluations@),
+            final(self).ood_frame.trace_states == old(self).ood_frame.trace_states,
+            final(self).ood_frame.lagrange_kernel_trace_states == old(self).ood_frame.lagrange_kernel_trace_states,
+            final(self).commitments == old(self).commitments,
+            final(self).public_coin.ops@ == old(self).public_coin.ops@.push(hash_elements_of(evaluations@)),
+    {
+        /*@@body*/
+    }
+}
+
 proof fn oodv_canary_must_fail(b: Seq<u8>)
     requires trace_ok(b, 1)
     ensures b.len() == 1
